@@ -162,6 +162,18 @@ Unsubscribe(c, id, fs) ==
   /\ UNCHANGED <<conn, ret, closed>>
   /\ Log([a |-> "unsubscribe", c |-> c, id |-> id, fs |-> [i \in 1..Len(fs) |-> Join(fs[i])]])
 
+\* "takes effect at the ack": the same request with many filters the connection does not hold in front of the one it
+\* holds (the UNSUBSCRIBE takes the broker a while), and with an observer who does not wait: as soon as the UNSUBACK has
+\* arrived, the next stimulus comes (from another connection) - what is accepted after the UNSUBACK was sent is not
+\* delivered to the filter that was unsubscribed.  The replayer does not put its PINGREQ barrier on this connection.
+UnsubscribeWide(c, id, f) ==
+  /\ c \in Conns /\ Up(c)
+  /\ subs' = {s \in subs : ~(s.who = c /\ s.f = f)}
+  /\ sess' = [sess EXCEPT ![conn[c].cid].topics = {x \in @ : x[1] # f}]
+  /\ out' = Grp(O0, c, {Ack("UNSUBACK", id)})
+  /\ UNCHANGED <<conn, ret, closed>>
+  /\ Log([a |-> "unsubscribe", c |-> c, id |-> id, fs |-> <<Join(f)>>, kind |-> "wide"])
+
 -----------------------------------------------------------------------------
 (* PUBLISH received (3.3, 4.3): QoS 0 accept; QoS 1 PUBACK then accept; QoS 2 store
    (unless that identifier is already stored) and PUBREC.
